@@ -62,6 +62,11 @@ CLAIMED = {
         text="TLC proves on PuSuspendImpl that nothing is queued on a PU after it went to sleep, and that suspend and resume calls return and all work completes (fair), and that a single-notify resume fails; real histories on a 3-worker pool (6 policies, elastic or not) with PU and pool suspension from OS threads and default-pool tasks, error_code and throwing forms, refusal cases and concurrent hinted submissions must be behaviours of PuAbs: refused calls leave the pool running, no task body runs on a worker between its suspend return and resume call, and after the final resume every task ran exactly once",
         note="sequential consistency; sampled schedules; work enqueued on a PU while it falls asleep may wait for the resume (allowed by the property text)",
         design="5/C19"),
+    "C04": dict(
+        technique="TLA+ abstract spec RwAbs (request order, groups, grant rule, versions) and fine-grained RwMutexImpl (op-state stack CAS vs. done() exchange) model-checked by TLC + TLC trace validation of request/start/drop/grant/release histories from the real async_rw_mutex",
+        text="TLC proves exclusion and progress on the abstract spec and, on RwMutexImpl, that every started operation is granted exactly once under all interleavings with done() (and that dropping the re-check inside the CAS loop loses a grant); recorded histories from the real mutex (1-4 threads starting/dropping/releasing, copied read wrappers, mutex destroyed early, hook delays between load and CAS) must be behaviours of RwAbs: grants in group order, writers alone, each access reading exactly the number of earlier writers, no owed grant at quiescence",
+        note="sequential consistency; sampled schedules; read()/readwrite() called from one thread",
+        design="5/C04"),
 }
 
 NOT_YET = {}
